@@ -21,7 +21,7 @@ using namespace Vector::BLF;
 
 static char MODE = 'r';
 static std::vector<int> SIZES;
-static long BUF, CONT, QCAP, EARLY, LEVEL, RP, EXTRA, INV;
+static long BUF, CONT, QCAP, EARLY, LEVEL, RP, EXTRA, INV, VERIFY;
 static std::string ENDING, PATH;
 static std::vector<blfasm::Bytes> ENC;      /* expected encoding per object */
 static blfasm::Bytes STREAM;
@@ -176,6 +176,9 @@ static std::string write_body() {
     }
     if (alloccap::big_requests) throw vx::Violation("alloc-cap", "allocation of " + std::to_string(alloccap::last_big) + " bytes requested");
     blfasm::Bytes got = blfasm::load(PATH);
+    /* verify=0: sessions in which a worker fails by design (compression level 10 is documented in File.h but rejected by
+     * zlib inside the compression thread) - only the absence of races, hangs and memory errors is checked there */
+    if (!VERIFY) return "file:unverified";
     blfasm::Bytes stream;
     for (size_t i = 0; i < k; i++) blfasm::put(stream, ENC[i].data(), ENC[i].size());
     std::string bad = blfasm::verify(got, stream, (size_t)CONT, (int)LEVEL, RP != 0, (uint32_t)k, library_header_defaults());
@@ -206,6 +209,7 @@ static int run_config(const vx::Args & args) {
     RP = args.num("rp", 0);
     EXTRA = args.num("extra", 0);
     INV = args.num("inv", 1);
+    VERIFY = args.num("verify", 1);
     alloccap::cap = (size_t)args.num("alloccap", 64 << 20);
     vx::Options opt;
     opt.bound = 1;
